@@ -82,8 +82,12 @@ pub enum DiscRes {
     Error,
 }
 
+pub const INJECTED_PANIC: &str = "sim: injected backend panic";
+
 #[derive(Clone, Debug, Serialize, Deserialize, PartialEq)]
 pub enum FiltRes {
+    /// a bug in the back-end adapter: panics when asked about this player, otherwise the identity
+    PanicIfUser { name: String },
     Identity,
     Indices(Vec<usize>),
     Targets(Vec<TargetSpec>),
@@ -439,6 +443,13 @@ impl FilterAdapter for SimFilter {
         );
         wait(&self.sh, "filter", i, call.lat_ns).await;
         let res = match &call.res {
+            FiltRes::PanicIfUser { name } => {
+                if user.0 == name {
+                    self.sh.world.lock().unwrap().fault("backend_adapter_panics");
+                    panic!("{INJECTED_PANIC}");
+                }
+                Ok(targets)
+            }
             FiltRes::Identity => Ok(targets),
             FiltRes::Indices(ix) => Ok(ix
                 .iter()
